@@ -245,15 +245,33 @@ func (f *FuncVC) libCall(st *State, x *ssa.Call, args []*Val) (*Val, bool) {
 		if mi, ok := x.Call.Args[0].(*ssa.MakeInterface); ok && mi.X.Type().String() == "*bytes.Buffer" {
 			f.usedAssumed[name+" into a *bytes.Buffer: appends binary.Size(data) bytes for fixed-size data (content not modelled), no other effect"] = true
 			// length accounting for fixed-size data (pointer to struct of fixed-size fields)
+			bv := f.val(st, mi.X)
+			hs := "(Array Int Int)"
+			h := f.heap(st, "G:blen", hs)
+			len0 := f.sc.define("blen0", "Int", sel(h, bv.T))
+			sized := false
 			if di, ok := x.Call.Args[2].(*ssa.MakeInterface); ok {
 				if sz, ok := binarySize(di.X.Type()); ok {
-					bv := f.val(st, mi.X)
-					hs := "(Array Int Int)"
-					h := f.heap(st, "G:blen", hs)
-					len0 := f.sc.define("blen0", "Int", sel(h, bv.T))
+					sized = true
 					f.setHeap(st, "G:blen", hs, store(h, bv.T, arith("+", len0, num(sz))))
 					f.binaryWriteContent(st, x, bv, len0, di)
 				}
+			}
+			if !sized {
+				// data of a size the model does not compute (slices): some number
+				// of bytes is appended, the earlier content is kept
+				nl := f.sc.fresh("blen")
+				f.sc.declare(nl, "Int")
+				f.fact(st, cmp(">=", nl, len0))
+				f.setHeap(st, "G:blen", hs, store(h, bv.T, nl))
+				ds := "(Array Int (Array Int Int))"
+				dh := f.heap(st, "G:bdata", ds)
+				old := f.sc.nameConst("bdata0", "(Array Int Int)", sel(dh, bv.T))
+				nd := f.sc.fresh("bdata")
+				f.sc.declare(nd, "(Array Int Int)")
+				f.setHeap(st, "G:bdata", ds, store(dh, bv.T, nd))
+				q := f.sc.fresh("k")
+				f.fact(st, fmt.Sprintf("(forall ((%s Int)) (! (=> (and (<= 0 %s) (< %s %s)) (= (select %s %s) (select %s %s))) :pattern ((select %s %s))))", q, q, q, len0, nd, q, old, q, nd, q))
 			}
 			return f.freshTyped(st, resTy, "binwrite"), true
 		}
